@@ -109,13 +109,24 @@ impl Family for Lints {
         let attr = format!("[allow({})] ", names(kind, &args, false).join(", "));
         // on the same line as what follows, so that no row number changes
         let fattr = format!("[[allow({})]] ", names(kind, &args, false).join(", "));
-        let none = |_: &str| String::new();
-        let with = |slot: &str| -> String {
-            if slot == place {
-                if slot == "file_own" { fattr.clone() } else { attr.clone() }
-            } else {
-                String::new()
+        // the unrelated second suppression is present in both runs, in front of the suppression under test
+        let extra = case["extra"].as_str().unwrap_or("none");
+        let eattr = format!("[allow({})] ", other_of(kind));
+        let efattr = format!("[[allow({})]] ", other_of(kind));
+        let extra_at = |slot: &str| -> String {
+            match (extra, slot) {
+                ("own_other", "own") | ("parent_other", "parent") => eattr.clone(),
+                ("file_other_attr", "file_own") => efattr.clone(),
+                _ => String::new(),
             }
+        };
+        let none = |slot: &str| extra_at(slot);
+        let with = |slot: &str| -> String {
+            let mut a = extra_at(slot);
+            if slot == place {
+                a.push_str(if slot == "file_own" { &fattr } else { &attr });
+            }
+            a
         };
         let base_text = template(site, &none);
         let supp_text = template(site, &with);
